@@ -45,7 +45,7 @@ def variants_of(c):
             elif k in ('requires', 'ensures') and k in cv:
                 cv[k] = list(cv[k]) + list(x)
             elif isinstance(x, dict) and isinstance(cv.get(k), dict):
-                cv[k] = dict(cv[k], **x)
+                cv[k] = {**cv[k], **x}
             else:
                 cv[k] = x
         out.append((name, cv))
